@@ -268,6 +268,14 @@ func (x *xl) expr(e ast.Expr, en env) (string, string) {
 				return "(" + g + " " + strings.Join(args, " ") + ")", x.frets[g]
 			}
 		case *ast.SelectorExpr:
+			if id, ok := f.X.(*ast.Ident); ok && id.Name == "bytes" && len(t.Args) == 2 && f.Sel.Name == "Compare" {
+				a, at := x.expr(t.Args[0], en)
+				b, bt := x.expr(t.Args[1], en)
+				if at == tBytes && bt == tBytes {
+					return "(bytes_compare " + a + " " + b + ")", tZ
+				}
+				xfail(t.Pos(), x.fset, "bytes.Compare on non-byte-slices")
+			}
 			if id, ok := f.X.(*ast.Ident); ok && id.Name == "strings" && len(t.Args) == 2 {
 				a, at := x.expr(t.Args[0], en)
 				b, bt := x.expr(t.Args[1], en)
